@@ -13,6 +13,10 @@ import (
 
 // BeginBlock updates base fee
 func (k *Keeper) BeginBlock(ctx sdk.Context, _ abci.RequestBeginBlock) {
+	// the gas wanted of a block is counted from zero: what the genesis transactions declared
+	// during InitChain (same, not yet committed, transient store as block 1) is not block gas
+	k.SetTransientBlockGasWanted(ctx, 0)
+
 	baseFee := k.CalculateBaseFee(ctx)
 
 	// return immediately if base fee is nil
